@@ -34,17 +34,61 @@ Further input classes:
     completed, skipped, pending with/without intermediate measurements;
     reward / named metric / two objectives.
 
+  * seeds: 0 is a seed like any other -- every seeded part (pg.geno.Random,
+    mutators, selectors.Random / Sample, Choice) is also run with seed 0.  A
+    recovered instance lives in another process: the uninterrupted run and
+    every recovery start from two different states of the process-global
+    `random` module, so a seeded part that draws from the global RNG cannot
+    reproduce the uninterrupted run.
+  * randomized (seeded) and scheduled POPULATION UPDATES of an Evolution (the
+    operation that recovery re-runs per replayed reward): random eviction,
+    weighted re-sampling, an update applied with a probability, `n` as a
+    function of the step.
+  * binding of the persisted DNAs: not bound to a DNASpec (what the JSON round
+    trip gives; every crash point) / bound by the loader to the space of the
+    recovering instance; that space is the object of the uninterrupted run /
+    an equal space built anew (alternating with the crash point).
+  * the history delivered in two recover() calls (rotating cut), for all
+    algorithm families and for the stored trials.
+  * a continuation / recovery that RAISES where the uninterrupted run goes on
+    is a failed case (`*.continuation-raises/*`, `*.recover-raises/*`).
+
 The oracle is the statement: "same observable state as the uninterrupted one";
 the reference is the uninterrupted instance itself, never a re-implementation
 of the recovery code.
 """
+import functools
 import os
+import random
 
 import pyglove as pg
 from pyglove.ext import evolution as ev
 from pyvc.bounded import Recorder, rng
 
 _NS = {'pg': pg, 'ev': ev}
+
+
+def _reseed(tag):
+  """Puts the process-global `random` module into a known state.
+
+  A recovered instance lives in another process than the uninterrupted one:
+  the state of the global RNG is not shared.  The uninterrupted run and every
+  recovery therefore start from two DIFFERENT global RNG states, so that a
+  seeded component that (wrongly) draws from the global RNG cannot reproduce
+  the uninterrupted run by accident -- and the driver stays deterministic.
+  """
+  random.seed(f'c15-{tag}')
+
+
+def _keeps_global_rng(fn):
+  @functools.wraps(fn)
+  def wrapped(tier, seed):
+    state = random.getstate()
+    try:
+      return fn(tier, seed)
+    finally:
+      random.setstate(state)
+  return wrapped
 
 SPACES = {
     'c3': "pg.dna_spec(pg.oneof([1, 2, 3]))",
@@ -58,6 +102,7 @@ SPACES = {
 _SUM = "lambda d: int(sum(d.to_numbers()) * 2)"
 _KEY = "lambda d: hash(tuple(d.to_numbers()))"
 _MEAN = "lambda rs: sum(rs) / len(rs)"
+_RAMP = "lambda xs: [1.0 + i for i in range(len(xs))]"
 
 
 def _det_configs(tier, seed):
@@ -91,6 +136,11 @@ def _det_configs(tier, seed):
        f"pg.geno.Deduping(pg.geno.Random(seed={s2}), hash_fn={_SUM}, "
        f"auto_reward_fn={_MEAN}, max_proposal_attempts=5)",
        ['many', 'cond']),
+      # Boundary value of the seed: 0 is a seed like any other (whatever
+      # VERIF_SEED is).
+      ('random', "pg.geno.Random(seed=0)", ['c2xc3', 'float']),
+      ('dedup-random', "pg.geno.Deduping(pg.geno.Random(seed=0), max_proposal_attempts=6)",
+       ['c3', 'c2xc3']),
   ]
   if tier != 'quick':
     for s in (11 + seed, 23 + seed):
@@ -115,18 +165,21 @@ def _evo_configs(tier, seed):
   """
   s = 1 + seed
   mut = f"ev.mutators.Uniform(seed={s})"
+  # Seed 0 is a seed like any other: one configuration of each stock algorithm
+  # uses it for all of its seeded parts (whatever VERIF_SEED is).
+  mut0 = "ev.mutators.Uniform(seed=0)"
   cfgs = [
       ('regularized_evolution',
        f"ev.regularized_evolution({mut}, population_size=3, tournament_size=2, seed={s})",
        False, True, ['c2xc3', 'float']),
       ('regularized_evolution',
-       f"ev.regularized_evolution({mut}, population_size=4, tournament_size=3, seed={s + 1})",
+       f"ev.regularized_evolution({mut0}, population_size=4, tournament_size=3, seed=0)",
        False, True, ['cond', 'many']),
       ('hill_climb',
        f"ev.hill_climb({mut}, batch_size=1, init_population_size=1, seed={s})",
        False, True, ['float', 'c2xc3']),
       ('hill_climb',
-       f"ev.hill_climb({mut}, batch_size=2, init_population_size=2, seed={s})",
+       f"ev.hill_climb({mut0}, batch_size=2, init_population_size=2, seed=0)",
        False, False, ['cond', 'many']),
       ('nsga2', f"ev.nsga2({mut}, population_size=2, seed={s})",
        True, True, ['c2xc3', 'float']),
@@ -160,6 +213,7 @@ def _evo_configs(tier, seed):
        "population_update=ev.selectors.Last(2))",
        False, True, ['c2xc3']),
   ]
+  cfgs += _update_configs(seed)
   if tier != 'quick':
     cfgs += [
         ('regularized_evolution',
@@ -168,12 +222,48 @@ def _evo_configs(tier, seed):
         ('hill_climb',
          f"ev.hill_climb({mut}, batch_size=3, init_population_size=3, seed={s + 2})",
          False, False, ['float', 'c2xc3']),
-        ('nsga2', f"ev.nsga2({mut}, population_size=3, seed={s + 2})",
+        ('nsga2', f"ev.nsga2({mut0}, population_size=3, seed=0)",
          True, True, ['cond', 'many']),
-        ('neat', f"ev.neat({mut}, population_size=4, seed={s + 2})",
+        ('neat', f"ev.neat({mut0}, population_size=4, seed=0)",
          False, False, ['float', 'many']),
     ]
   return cfgs
+
+
+def _update_configs(seed):
+  """Evolutions whose POPULATION UPDATE is randomized (seeded) or scheduled.
+
+  The population update is the operation that runs at every feedback and that
+  recovery re-runs for every replayed reward.  With seeded randomized
+  operations in it (random eviction `selectors.Random`, weighted re-sampling
+  `selectors.Sample`, an update applied with a probability `Operation.with_prob`
+  = `Choice`) the population is a function of history and seed; with a
+  scheduled one (`n` a function of the step) a function of the history.
+  Seeds: the boundary value 0 and a non-zero one.
+  """
+  s = 1 + seed
+  mut0 = "ev.mutators.Uniform(seed=0)"
+
+  def evo(update, init):
+    return (f"ev.Evolution(ev.selectors.Top(1) >> {mut0}, population_init={init}, "
+            f"population_update={update})")
+  return [
+      ('evolution-random-update',
+       evo("ev.selectors.Random(3, seed=0)", "(pg.geno.Random(seed=0), 3)"),
+       False, True, ['c2xc3', 'float']),
+      ('evolution-random-update',
+       evo(f"ev.selectors.Random(0.75, replacement=True, seed={s})", "(pg.geno.Sweeping(), 3)"),
+       False, True, ['many', 'c3']),
+      ('evolution-sample-update',
+       evo(f"ev.selectors.Sample(3, {_RAMP}, seed=0)", "(pg.geno.Sweeping(), 3)"),
+       False, True, ['cond', 'c2xc3']),
+      ('evolution-choice-update',
+       evo("ev.selectors.Last(2).with_prob(0.5, seed=0)", "(pg.geno.Sweeping(), 2)"),
+       False, True, ['c2xc3', 'cond']),
+      ('evolution-scheduled-update',
+       evo("ev.selectors.Last(lambda step: 2 + step % 2)", "(pg.geno.Sweeping(), 2)"),
+       False, True, ['c3', 'many']),
+  ]
 
 
 def _dedup_evo_configs(tier, seed):
@@ -191,6 +281,10 @@ def _dedup_evo_configs(tier, seed):
       ('dedup-evolution',
        f"pg.geno.Deduping({hill}, hash_fn={_KEY}, auto_reward_fn={_MEAN})",
        False, True, ['c3', 'c2xc3']),
+      # Inner evolution with a seeded random population update (seed 0).
+      ('dedup-evolution',
+       f"pg.geno.Deduping({_update_configs(seed)[0][1]}, hash_fn={_KEY}, max_duplicates=2)",
+       False, True, ['c2xc3', 'float']),
   ]
   if tier != 'quick':
     neat = f"ev.neat({mut}, population_size=3, seed={s})"
@@ -434,6 +528,7 @@ class _Run:
 
   def __init__(self, algo_expr, space_expr, events, rewards, extra=0,
                continue_after_stop=False):
+    _reseed('uninterrupted')
     self.space = eval(space_expr, _NS)  # pylint: disable=eval-used
     self.algo = eval(algo_expr, _NS)    # pylint: disable=eval-used
     self.algo.setup(self.space)
@@ -550,9 +645,26 @@ class _Run:
     return self.outcomes + self.tail
 
 
-def _history(run, snap, variant):
+def _target_space(run, space_expr, fresh):
+  """The space the fresh instance is set up on: the very object of the
+  uninterrupted run, or (a new process) an equal one that was built anew."""
+  if not fresh:
+    return run.space
+  if getattr(run, 'space_anew', None) is None:    # (built once per run: it is costly)
+    run.space_anew = eval(space_expr, _NS)  # pylint: disable=eval-used
+  return run.space_anew
+
+
+def _history(run, snap, variant, space=None):
+  """The persisted history.  All variants went through JSON, so the DNAs are
+  NOT bound to a DNASpec, except in variant 'bound': there the loader has bound
+  them to the space of the recovering instance (`DNA.use_spec`)."""
   hist = [(d, r) for d, r in pg.from_json_str(snap['hist_json'])]
   if variant == 'crash':
+    return hist
+  if variant == 'bound':
+    for d, _ in hist:
+      d.use_spec(space)
     return hist
   out = []
   for i, (d, r) in enumerate(hist):
@@ -563,6 +675,7 @@ def _history(run, snap, variant):
 
 
 def _recovered(algo_expr, space, history, chunk=None):
+  _reseed('recovered')
   b = eval(algo_expr, _NS)  # pylint: disable=eval-used
   b.setup(space)
   if chunk is None:
@@ -574,6 +687,9 @@ def _recovered(algo_expr, space, history, chunk=None):
 
 
 def _continue(algo, m):
+  """The next m proposals: str(DNA), 'STOP' for StopIteration (exhausted) or
+  'RAISED <error>' -- the uninterrupted run never raises anything else, so a
+  continuation that raises is a failed case, not a crash of the driver."""
   out = []
   for _ in range(m):
     try:
@@ -581,19 +697,26 @@ def _continue(algo, m):
     except StopIteration:
       out.append('STOP')
       break
+    except Exception as e:  # pylint: disable=broad-except
+      out.append(f'RAISED {type(e).__name__}: {e}'[:200])
+      break
   return out
+
+
+def _raised(proposals):
+  return bool(proposals) and proposals[-1].startswith('RAISED ')
 
 
 # ---------------------------------------------------------------------------
 # Witness snippets (self-contained, < 1200 characters).
 # ---------------------------------------------------------------------------
 
-_W_HEAD = """import pyglove as pg
-from pyglove.ext import evolution as ev
-S={space}
+_W_HEAD = """import random,pyglove as pg
+ev=pg.evolution
+Z={space!r};S=eval(Z)
 mk=lambda:{algo}
 E={events};R={rewards}
-a=mk();a.setup(S);P=[];J=[];F=[]
+random.seed(1);a=mk();a.setup(S);P=[];J=[];F=[]
 for e in E:
   try:
     if e=='p':P.append(a.propose()){snapshot}
@@ -601,13 +724,14 @@ for e in E:
     else:a.feedback(P[e],R[e]);F.append(e)
   except (StopIteration,ValueError):pass
 H=pg.from_json_str(pg.to_json_str([[d,R[i] if i in F else None] for i,d in enumerate(P)]))
-{pick}b=mk();b.setup(S);{recover}
+{pick}random.seed(2);b=mk();T={target};b.setup(T);{bind}{recover}
 """
 
 _W_PICK = {
     'crash': '',
     'proposal': 'H=[(pg.from_json_str(J[i]),r) for i,(d,r) in enumerate(H)]\n',
     'mixed': 'H=[(pg.from_json_str(J[i]) if i==F[-1] else d,r) for i,(d,r) in enumerate(H)]\n',
+    'bound': '',
 }
 
 _G = "getattr(g,'generator',g)"
@@ -643,14 +767,17 @@ _W_CONT = """def f(g):
 """
 
 
-def _witness(space_expr, algo_expr, snap, variant, check, chunk=None, m=0):
+def _witness(space_expr, algo_expr, snap, variant, check, chunk=None, m=0, fresh=False):
   rec = 'b.recover(H)' if chunk is None else f'b.recover(H[:{chunk}]);b.recover(H[{chunk}:])'
   w = _W_HEAD.format(space=space_expr, algo=algo_expr,
+                     target='eval(Z)' if fresh else 'S',
+                     bind='[d.use_spec(T) for d,_ in H];' if variant == 'bound' else '',
                      events=repr([-e[1] - 1 if isinstance(e, tuple) else e
                                   for e in snap['events']]).replace(' ', ''),
                      rewards=repr(snap['rewards']).replace(' ', ''),
                      pick=_W_PICK[variant], recover=rec,
-                     snapshot=('' if variant == 'crash' else ';J.append(pg.to_json_str(P[-1]))'))
+                     snapshot=('' if variant in ('crash', 'bound')
+                               else ';J.append(pg.to_json_str(P[-1]))'))
   if check == 'continuation':
     w += _W_CONT.format(m=m)
   else:
@@ -697,17 +824,23 @@ def _det_combos(tier, seed, n):
 
 def _evo_combos(configs, tier, seed, n):
   for ci, (kind, algo_expr, multi, single, spaces) in enumerate(configs):
-    if tier == 'quick':
+    if tier == 'quick' or kind.endswith('-update'):
       spaces = [spaces[(seed + ci) % len(spaces)]]
     for j, sp in enumerate(spaces):
       pats = _patterns(n, tier, seed, f'{algo_expr}-{sp}')
       if tier == 'quick':
         want = {_IN_ORDER[(ci + j + seed) % len(_IN_ORDER)], 'holes3'}
-        if 'init-dedup' not in kind:
-          # (The order of the feedbacks is of no concern to an initializer.)
-          want.add(_OUT_OF_ORDER[(ci + j + seed) % len(_OUT_OF_ORDER)])
-        if not multi:
-          want.add(f'refused{(ci + j + seed) % 2}')
+        if kind.endswith('-update'):
+          # (Configurations that differ from 'evolution' in the population
+          # update only: one of out-of-order / refused, rotating.)
+          want.add(_OUT_OF_ORDER[(ci + j + seed) % len(_OUT_OF_ORDER)] if (ci + seed) % 2
+                   else f'refused{(ci + j + seed) % 2}')
+        else:
+          if 'init-dedup' not in kind:
+            # (The order of the feedbacks is of no concern to an initializer.)
+            want.add(_OUT_OF_ORDER[(ci + j + seed) % len(_OUT_OF_ORDER)])
+          if not multi:
+            want.add(f'refused{(ci + j + seed) % 2}')
       else:
         ino = [p[0] for p in pats if p[1] == 'in-order' and not p[0].startswith('rand')]
         ooo = [p[0] for p in pats if p[1] == 'out-of-order' and not p[0].startswith('rand')]
@@ -725,6 +858,7 @@ def _evo_combos(configs, tier, seed, n):
 # Drivers.
 # ---------------------------------------------------------------------------
 
+@_keeps_global_rng
 def drv_recover_deterministic(tier, seed):
   quick = tier == 'quick'
   n = 6 if quick else 8
@@ -738,9 +872,14 @@ def drv_recover_deterministic(tier, seed):
              'random interleavings; quick: 2 spaces x 1-2 patterns per configuration, rotated by '
              'seed); crash after EVERY event prefix; history through pg JSON with DNA metadata as '
              f'of crash and as of proposal; continuation compared for {m} further proposals incl. '
-             'exhaustion; recover() in one call and split in two calls; the run goes on after a '
-             'propose() that raised StopIteration (at most 2): counts and dedup memory are compared '
-             'at those crash points too'))
+             'exhaustion (a continuation that raises anything but StopIteration is a failed case); '
+             'recover() in one call and split in two calls (cut k/2, 1, k-1 rotating); the run goes '
+             'on after a propose() that raised StopIteration (at most 2): counts and dedup memory '
+             'are compared at those crash points too; seed 0 for Random and Deduping(Random); '
+             'persisted DNAs not bound to a spec (every crash point) / bound to the space of the '
+             'recovering instance (every 4th); recovering instance set up on the same space object '
+             '/ an equal space built anew (alternating); process-global RNG reseeded differently '
+             'for the uninterrupted run and for each recovery'))
   for kind, algo_expr, sp, pname, _, events in _det_combos(tier, seed, n):
     space_expr = SPACES[sp]
     r = rng(seed, f'c15-det-{algo_expr}-{sp}')
@@ -753,16 +892,28 @@ def drv_recover_deterministic(tier, seed):
       continue
     allp = run.all_proposals()
     for ci, snap in enumerate(run.snaps):
+      # Every crash point: the history as read back from JSON (DNAs with the
+      # metadata as of the crash, NOT bound to a spec).  Rotating with the
+      # crash point: metadata as of the proposal; DNAs bound to the space of
+      # the recovering instance by the loader.
       variants = ['crash']
       if ci % 3 == 1 or (not quick and ci % 3 == 2):
         variants.append('proposal')
+      if ci % 4 == 2 or (not quick and ci % 4 == 0):
+        variants.append('bound')
+      # The recovering instance is set up on the space object of the
+      # uninterrupted run (even crash points) / on an equal space built anew.
+      fresh = ci % 2 == 1
       for variant in variants:
         chunks = [None]
-        if snap['k'] >= 2 and variant == 'crash' and (ci % 3 == 0 or (not quick and ci % 3 == 1)):
-          chunks.append(snap['k'] // 2)
+        k = snap['k']
+        if k >= 2 and variant == 'crash' and (ci % 3 == 0 or (not quick and ci % 3 == 1)):
+          # The history arrives in two recover() calls; the cut rotates.
+          chunks.append([k // 2, 1, k - 1][(ci // 3) % 3])
         single_call = {}
         for chunk in chunks:
-          key = (algo_expr, sp, pname, ci, variant, chunk)
+          key = (algo_expr, sp, pname, ci, variant, chunk, 'fresh-space' if fresh else 'same-space')
+          pre = 'det' if chunk is None else 'det.two-recover-calls'
 
           def case(check, cid, ok, msg, wit):
             # A failure of the split recovery is reported only if the same
@@ -772,30 +923,32 @@ def drv_recover_deterministic(tier, seed):
             elif not single_call.get(check, True):  # pylint: disable=cell-var-from-loop
               return
             rec.case(cid, key, ok, msg, wit)  # pylint: disable=cell-var-from-loop
-          hist = _history(run, snap, variant)
-          pre = 'det' if chunk is None else 'det.two-recover-calls'
+
+          def wit(check, m_=0):
+            return _witness(space_expr, algo_expr, snap, variant, check, chunk, m=m_,  # pylint: disable=cell-var-from-loop
+                            fresh=fresh)  # pylint: disable=cell-var-from-loop
           try:
-            b = _recovered(algo_expr, run.space, hist, chunk)
+            space_b = _target_space(run, space_expr, fresh)
+            hist = _history(run, snap, variant, space_b)
+            b = _recovered(algo_expr, space_b, hist, chunk)
+            ob = _observe(b)
           except Exception as e:  # pylint: disable=broad-except
-            rec.case(f'{pre}.recover-raises/{kind}', key, False,
-                     f'recover raised {type(e).__name__}: {e}',
-                     _witness(space_expr, algo_expr, snap, variant, 'counts', chunk))
+            case('recover', f'{pre}.recover-raises/{kind}', False,
+                 f'loading the history / recover / reading the state raised '
+                 f'{type(e).__name__}: {e}', wit('counts'))
             continue
-          ob = _observe(b)
           oa = snap['obs']
           # A propose() that raised StopIteration is no proposal: it is not in
           # the history and must have left no trace in the counters.
           sfx = '/after-exhausted-propose' if snap['failed_proposes'] else ''
           case('counts', f'{pre}.counts/{kind}{sfx}', ob['counts'] == oa['counts'],
                f'recovered (num_proposals, num_feedbacks)={ob["counts"]}, '
-               f'uninterrupted {oa["counts"]}',
-               _witness(space_expr, algo_expr, snap, variant, 'counts', chunk))
+               f'uninterrupted {oa["counts"]}', wit('counts'))
           if oa.get('cache') is not None and ob.get('cache') is not None:
             ca = {k: len(v) for k, v in oa['cache'].items()}
             cb = {k: len(v) for k, v in ob['cache'].items()}
             case('memory', f'{pre}.dedup-memory/{kind}{sfx}', ca == cb,
-                 f'recovered key->count {cb}, uninterrupted {ca}',
-                 _witness(space_expr, algo_expr, snap, variant, 'cache_counts', chunk))
+                 f'recovered key->count {cb}, uninterrupted {ca}', wit('cache_counts'))
           if snap['failed_proposes']:
             # The statement speaks of crash points after proposals and
             # feedbacks.  What a generator does after a propose() that raised
@@ -808,14 +961,20 @@ def drv_recover_deterministic(tier, seed):
           if 'STOP' in want:
             want = want[:want.index('STOP') + 1]
           got = _continue(b, len(want)) if want else []
-          cid = f'{pre}.continuation/{kind}'
-          if kind == 'dedup-random':
-            cid += ('/rejected-duplicates-before-crash' if snap['rejected']
-                    else '/no-rejected-duplicates-before-crash')
+          if _raised(got):
+            # The uninterrupted run proposes (or is exhausted); the recovered
+            # instance raises something else.
+            cid = f'{pre}.continuation-raises/{kind}'
+          else:
+            cid = f'{pre}.continuation/{kind}'
+            if kind == 'dedup-random':
+              cid += ('/rejected-duplicates-before-crash' if snap['rejected']
+                      else '/no-rejected-duplicates-before-crash')
           case('continuation', cid, got == want,
-               f'recovered instance continues with {got}, uninterrupted run with {want}',
-               _witness(space_expr, algo_expr, snap, variant, 'continuation', chunk,
-                        m=len(want)))
+               f'recovered instance ({variant} history, '
+               f'{"DNAs bound to the space" if variant == "bound" else "DNAs not bound to a spec"}'
+               f', {"space built anew" if fresh else "same space object"}) continues with {got}, '
+               f'uninterrupted run with {want}', wit('continuation', len(want)))
   return rec.result()
 
 
@@ -967,21 +1126,64 @@ def _drv_evo(rec, pre, configs, tier, seed, n, dedup):
       nxt = None
       if ci + 1 < len(run.snaps) and run.snaps[ci + 1]['proposed'] is not None:
         nxt = run.snaps[ci + 1]['proposed']
+      # The recovering instance is set up on the space object of the
+      # uninterrupted run (even crash points) / on an equal space built anew.
+      fresh = ci % 2 == 1
+      k = snap['k']
       for variant in variants:
-        key = (algo_expr, sp, pname, ci, variant)
-        hist = _history(run, snap, variant)
-        wit = (lambda check, _s=snap, _v=variant:
-               _witness(space_expr, algo_expr, _s, _v, check))  # pylint: disable=cell-var-from-loop
-        try:
-          b = _recovered(algo_expr, run.space, hist)
-        except Exception as e:  # pylint: disable=broad-except
-          rec.case(f'{pre}.recover-raises/{_order(cls)}', key, False,
-                   f'recover raised {type(e).__name__}: {e}', wit('counts'))
-          continue
-        _evo_checks(rec, pre, kind, single, cls, key, snap['obs'], _observe(b), snap, nxt,
-                    b, wit, dedup)
+        chunks = [None]
+        if k >= 2 and variant == 'crash' and (
+            (ci % 3 == 1) if not quick
+            else (ci % 4 == 3 and not refused_pattern and cls != 'out-of-order')):
+          # The history arrives in two recover() calls ("could be called
+          # multiple times if there are multiple source of history"); the cut
+          # rotates, so it also falls inside the initial population.
+          chunks.append([k // 2, 1, k - 1][(ci // 4) % 3])
+        failed_single = set()
+        for chunk in chunks:
+          key = (algo_expr, sp, pname, ci, variant, chunk, 'fresh-space' if fresh else 'same-space')
+          wit = (lambda check, _s=snap, _v=variant, _c=chunk, _f=fresh:
+                 _witness(space_expr, algo_expr, _s, _v, check, _c, fresh=_f))  # pylint: disable=cell-var-from-loop
+          if chunk is None:
+            sub = _SubRec(rec)
+          else:
+            # A failure of the split recovery is reported only if the same
+            # check passed for the single-call recovery (else: same defect).
+            sub = _SubRec(rec, rename=(pre + '.', pre + '.two-recover-calls.'), skip=failed_single)
+          try:
+            space_b = _target_space(run, space_expr, fresh)
+            hist = _history(run, snap, variant, space_b)
+            b = _recovered(algo_expr, space_b, hist, chunk)
+            ob = _observe(b)
+          except Exception as e:  # pylint: disable=broad-except
+            sub.case(f'{pre}.recover-raises/{_order(cls)}', key, False,
+                     f'loading the history / recover / reading the state raised '
+                     f'{type(e).__name__}: {e}', wit('counts'))
+          else:
+            _evo_checks(sub, pre, kind, single, cls, key, snap['obs'], ob, snap, nxt,
+                        b, wit, dedup)
+          if chunk is None:
+            failed_single = sub.failed
 
 
+class _SubRec:
+  """Recorder front: remembers the failed ids; optionally renames the ids and
+  drops failures listed in `skip` (ids before renaming)."""
+
+  def __init__(self, rec, rename=None, skip=()):
+    self.rec, self.rename, self.skip, self.failed = rec, rename, skip, set()
+
+  def case(self, cid, key, ok, message='', witness=''):
+    if not ok:
+      self.failed.add(cid)
+      if cid in self.skip:
+        return ok
+    if self.rename:
+      cid = cid.replace(self.rename[0], self.rename[1], 1)
+    return self.rec.case(cid, key, ok, message, witness)
+
+
+@_keeps_global_rng
 def drv_recover_evolution(tier, seed):
   n = 8 if tier == 'quick' else 12
   rec = Recorder(
@@ -998,11 +1200,19 @@ def drv_recover_evolution(tier, seed):
              'count and dedup memory of the population initialiser, DNA of the next initial '
              'individual; single-objective algorithms: + one pattern with refused feedback calls '
              '(2-tuple reward -> ValueError; before the proper reward / instead of it), compared at '
-             'every crash point after the first refusal'))
+             'every crash point after the first refusal; seed 0 in all seeded parts of one '
+             'regularized_evolution and one hill_climb (thorough: nsga2, neat); Evolution with a '
+             'seeded random / scheduled population update: selectors.Random(3, seed=0), '
+             'Random(0.75, replacement, seed), Sample(3, weights, seed=0), Last(2).with_prob(0.5, '
+             'seed=0), Last(f(step)) (quick: in-order + holes + one of out-of-order/refused); '
+             '(thorough: 1 space each); history in two recover() calls (quick: every 4th crash '
+             'point of the in-order/holes patterns, thorough: every 3rd; cut k/2, 1, k-1 rotating); space object same / built anew alternating; '
+             'process-global RNG reseeded differently for the uninterrupted run and each recovery'))
   _drv_evo(rec, 'evo', _evo_configs(tier, seed), tier, seed, n, dedup=False)
   return rec.result()
 
 
+@_keeps_global_rng
 def drv_recover_dedup_evolution(tier, seed):
   n = 7 if tier == 'quick' else 10
   rec = Recorder(
@@ -1012,7 +1222,9 @@ def drv_recover_dedup_evolution(tier, seed):
              f'as pg.sample does); spaces oneof3, 2x3, conditional, manyof; N<={n}; patterns, crash '
              'points and JSON as in the evolution driver; compares outer and inner counts, inner '
              'population, dedup memory (key -> rewards), id/phase of the next proposal; + one '
-             'pattern with refused feedback calls as in the evolution driver'))
+             'pattern with refused feedback calls as in the evolution driver; + Deduping over an '
+             'Evolution with a seeded random population update (seed 0); two recover() calls, '
+             'space anew and global RNG as in the evolution driver'))
   _drv_evo(rec, 'dedup-evo', _dedup_evo_configs(tier, seed), tier, seed, n, dedup=True)
   return rec.result()
 
@@ -1051,6 +1263,9 @@ def _trial_configs(tier, seed):
        ['reward'], False, ['float', 'many']),
       ('nsga2', f"ev.nsga2({mut}, population_size=2, seed={s})",
        ['reward', 'cost'], False, ['c2xc3', 'many']),
+      # Seeded random population update, all seeds 0.
+      ('evolution-random-update', _update_configs(seed)[0][1],
+       ['reward'], False, ['c2xc3', 'float']),
   ]
   return cfgs
 
@@ -1094,6 +1309,7 @@ class _TrialRun:
   def __init__(self, algo_expr, space_expr, metrics, events, args, extra):
     _STUDY_NO[0] += 1
     self.study = f'c15-bounded-{os.getpid()}-{_STUDY_NO[0]}'
+    _reseed('uninterrupted')
     self.space = eval(space_expr, _NS)  # pylint: disable=eval-used
     self.algo = eval(algo_expr, _NS)    # pylint: disable=eval-used
     self.metrics = metrics
@@ -1152,13 +1368,13 @@ def _trial_class(state):
   return 'all-trials-completed'
 
 
-_W_TRIALS = """import pyglove as pg
-from pyglove.ext import evolution as ev
+_W_TRIALS = """import random,pyglove as pg
+ev=pg.evolution
 S={space}
 mk=lambda:{algo}
 M={metrics};E={events};R={rewards}
 A=lambda r:{args}
-a=mk();n='w%d'%id(a);F=[]
+random.seed(1);a=mk();n='w%d'%id(a);F=[]
 for e in E:
   i=int(e[1:] or 0)
   if e=='p':F.append(next(pg.sample(S,a,name=n,group=str(len(F)),metrics_to_optimize=M))[1])
@@ -1166,7 +1382,8 @@ for e in E:
   elif e[0]=='m':F[i].add_measurement(*A(R[i+1]),step=1)
   else:F[i].skip()
 T=pg.from_json_str(pg.to_json_str(pg.tuning.poll_result(n).trials))
-b=mk();b.setup(S);b.recover([(t.dna,t.get_reward_for_feedback(M)) for t in T])
+H=[(t.dna,t.get_reward_for_feedback(M)) for t in T]
+random.seed(2);b=mk();b.setup(S);{recover}
 """
 
 
@@ -1176,6 +1393,7 @@ def _w_args(metrics):
   return '(r,)'
 
 
+@_keeps_global_rng
 def drv_recover_from_trials(tier, seed):
   quick = tier == 'quick'
   n = 6 if quick else 9
@@ -1189,7 +1407,9 @@ def drv_recover_from_trials(tier, seed):
              'earlier measurements), left pending (with and without intermediate measurements); '
              'crash after EVERY event; trials through pg JSON; history = (trial.dna, '
              'trial.get_reward_for_feedback(metrics)); compares counts, population+fitness, dedup '
-             f'memory, the next {m} proposals of the deterministic generators'
+             f'memory, the next {m} proposals of the deterministic generators (a continuation that '
+             'raises is a failed case); + Evolution with a seeded random population update (seed '
+             '0); every 3rd crash point also with the trials delivered in two recover() calls'
              + ('; quick: 1 space x 2 patterns (generators without feedback: 1) per algorithm, rotated by seed' if quick else '')))
   for ci, (kind, algo_expr, metrics, det, spaces) in enumerate(_trial_configs(tier, seed)):
     if quick:
@@ -1210,47 +1430,66 @@ def drv_recover_from_trials(tier, seed):
           continue
         allp = run.outcomes + run.tail
         for ci2, snap in enumerate(run.snaps):
-          key = (algo_expr, sp, pname, ci2)
           tcls = _trial_class(snap['state'])
+          chunks = [None]
+          if snap['k'] >= 2 and ci2 % 3 == 1:
+            # Trials of two sources (e.g. an earlier study + the current one):
+            # the history arrives in two recover() calls.
+            chunks.append([snap['k'] // 2, 1, snap['k'] - 1][(ci2 // 3) % 3])
+          failed_single = set()
+          for chunk in chunks:
+            key = (algo_expr, sp, pname, ci2, chunk)
+            if chunk is None:
+              sub = _SubRec(rec)
+            else:
+              sub = _SubRec(rec, rename=('trials.', 'trials.two-recover-calls.'),
+                            skip=failed_single)
 
-          def wit(check, m_=0, _s=snap):
-            w = _W_TRIALS.format(
-                space=space_expr, algo=algo_expr, metrics=metrics, args=_w_args(metrics),  # pylint: disable=cell-var-from-loop
-                events=repr([e if e == 'p' else f'{e[0]}{e[1]}' for e in _s['events']]).replace(' ', ''),
-                rewards=repr(rewards[:_s['k'] + 1]).replace(' ', ''))  # pylint: disable=cell-var-from-loop
-            w += (_W_CONT.format(m=m_) if check == 'continuation' else _W_CHECK[check] + '\n')
-            return w + 'x,y=f(b),f(a)\nassert x==y,(x,y)'
-          try:
-            trials = pg.from_json_str(snap['trials_json'])
-            hist = [(t.dna, t.get_reward_for_feedback(metrics)) for t in trials]
-            b = _recovered(algo_expr, run.space, hist)
-          except Exception as e:  # pylint: disable=broad-except
-            rec.case(f'trials.recover-raises/{tcls}', key, False,
-                     f'building the history from the stored trials / recover raised '
-                     f'{type(e).__name__}: {e}', wit('counts'))
-            continue
-          oa, ob = snap['obs'], _observe(b)
-          ok = rec.case(f'trials.counts/{tcls}', key, ob['counts'] == oa['counts'],
-                        f'recovered (num_proposals, num_feedbacks)={ob["counts"]}, uninterrupted '
-                        f'{oa["counts"]}; trial states {snap["state"]}', wit('counts'))
-          if not ok:
-            continue      # the replayed rewards are not those of the live run
-          if 'pop' in oa:
-            rec.case(f'trials.population/{tcls}', key, ob['pop'] == oa['pop'],
-                     f'recovered population {ob["pop"]}, uninterrupted {oa["pop"]}', wit('pop'))
-          if oa.get('cache') is not None and ob.get('cache') is not None:
-            ca = {k: len(v) for k, v in oa['cache'].items()}
-            cb = {k: len(v) for k, v in ob['cache'].items()}
-            rec.case(f'trials.dedup-memory/{tcls}', key, ca == cb,
-                     f'recovered key->count {cb}, uninterrupted {ca}', wit('cache_counts'))
-          if det:
-            want = allp[snap['k']:snap['k'] + m]
-            if 'STOP' in want:
-              want = want[:want.index('STOP') + 1]
-            got = _continue(b, len(want)) if want else []
-            rec.case(f'trials.continuation/{kind}/{tcls}', key, got == want,
-                     f'recovered instance continues with {got}, uninterrupted run with {want}',
-                     wit('continuation', len(want)))
+            def wit(check, m_=0, _s=snap, _c=chunk):
+              w = _W_TRIALS.format(
+                  space=space_expr, algo=algo_expr, metrics=metrics, args=_w_args(metrics),  # pylint: disable=cell-var-from-loop
+                  events=repr([e if e == 'p' else f'{e[0]}{e[1]}' for e in _s['events']]).replace(' ', ''),
+                  rewards=repr(rewards[:_s['k'] + 1]).replace(' ', ''),  # pylint: disable=cell-var-from-loop
+                  recover=('b.recover(H)' if _c is None
+                           else f'b.recover(H[:{_c}]);b.recover(H[{_c}:])'))
+              w += (_W_CONT.format(m=m_) if check == 'continuation' else _W_CHECK[check] + '\n')
+              return w + 'x,y=f(b),f(a)\nassert x==y,(x,y)'
+            try:
+              trials = pg.from_json_str(snap['trials_json'])
+              hist = [(t.dna, t.get_reward_for_feedback(metrics)) for t in trials]
+              b = _recovered(algo_expr, run.space, hist, chunk)
+              ob = _observe(b)
+            except Exception as e:  # pylint: disable=broad-except
+              sub.case(f'trials.recover-raises/{tcls}', key, False,
+                       f'building the history from the stored trials / recover / reading the '
+                       f'state raised {type(e).__name__}: {e}', wit('counts'))
+              if chunk is None:
+                failed_single = sub.failed
+              continue
+            oa = snap['obs']
+            ok = sub.case(f'trials.counts/{tcls}', key, ob['counts'] == oa['counts'],
+                          f'recovered (num_proposals, num_feedbacks)={ob["counts"]}, uninterrupted '
+                          f'{oa["counts"]}; trial states {snap["state"]}', wit('counts'))
+            if ok:      # (else the replayed rewards are not those of the live run)
+              if 'pop' in oa:
+                sub.case(f'trials.population/{tcls}', key, ob['pop'] == oa['pop'],
+                         f'recovered population {ob["pop"]}, uninterrupted {oa["pop"]}', wit('pop'))
+              if oa.get('cache') is not None and ob.get('cache') is not None:
+                ca = {k: len(v) for k, v in oa['cache'].items()}
+                cb = {k: len(v) for k, v in ob['cache'].items()}
+                sub.case(f'trials.dedup-memory/{tcls}', key, ca == cb,
+                         f'recovered key->count {cb}, uninterrupted {ca}', wit('cache_counts'))
+              if det:
+                want = allp[snap['k']:snap['k'] + m]
+                if 'STOP' in want:
+                  want = want[:want.index('STOP') + 1]
+                got = _continue(b, len(want)) if want else []
+                what = 'continuation-raises' if _raised(got) else 'continuation'
+                sub.case(f'trials.{what}/{kind}/{tcls}', key, got == want,
+                         f'recovered instance continues with {got}, uninterrupted run with {want}',
+                         wit('continuation', len(want)))
+            if chunk is None:
+              failed_single = sub.failed
   return rec.result()
 
 
